@@ -5,7 +5,7 @@ UPDATE_ALL = [func("bt.core.StrategyBase.update", variant=v) for v in ("flat", "
 
 ID = "C16"
 META = {
-    "assumptions": ['A-REAL', 'A-COMM', 'A-T', 'A-IND', 'A-DATA-NONE', 'A-CYTHON', 'A-SOLVER', 'A-ENGINE'],
+    "assumptions": ['A-REAL', 'A-COMM', 'A-T', 'A-IND', 'A-CYTHON', 'A-SOLVER', 'A-ENGINE'],
     "explanation": 'update proved to flag bankruptcy only at a market-value root whose recomputed value is strictly negative (beyond is_zero) and not already flagged, and never otherwise: every non-flattening exit leaves the flag unchanged and has no negative market-value root value; after a liquidation no change stays pending once a child is read (the rows of the date are re-recorded); flatten proved to close every priced security child (close-out clause of allocate) and to mark the root stale; setup proved to reset the flag; Backtest.run proved not to run the algos once the flag is set.',
 }
 MANIFEST_ENTRY = {
